@@ -17,7 +17,7 @@ TEXT = {
     level_note="Trusted: harness/internal/refwire (independent encoder/decoder, shares no code with go-p9p). Pointer-typed messages inside Fcall are not generated.",
  ),
  "C04": dict(
-    technique="property-based testing (rapid) with structure-aware mutation of valid encodings + native coverage-guided fuzzing; oracle = no panic, measured allocation bound, decode/encode/decode stability",
+    technique="property-based testing (rapid) with structure-aware mutation of valid encodings + exhaustive sweep of all 16-bit element counts + native coverage-guided fuzzing; oracle = no panic, measured allocation bound, decode/encode/decode stability",
     design_ref="DESIGN.md section 4, C04",
     level_text="Generated-input search over mutated valid encodings (every length/count field x hostile values, truncations, extensions, type bytes) and random bytes, for Unmarshal and DecodeDir; "
                "panics are caught, allocation is measured per call. Exploration: cannot show absence of a hostile input outside the explored classes.",
@@ -60,10 +60,10 @@ TEXT = {
     level_note="Trusted: refwire.EncodeStat, mockfs listing order, the msize-forcing connection wrapper.",
  ),
  "C14": dict(
-    technique="property-based concurrency testing: rapid-generated concurrent histories with a harness-owned schedule (gates at every file-system call), overlap monitors in the mock, deadlock watchdog, Go race detector",
+    technique="property-based concurrency testing: rapid-generated concurrent histories with a harness-owned schedule (gates at every file-system call), overlap monitors in the mock (entries, open files, directory iterators), structural deadlock detector, per-fid binding-conservation law over the results, Go race detector",
     design_ref="DESIGN.md section 4, C14",
-    level_text="Generated concurrent histories x generated release orders of parked file-system calls; violations are observed (overlapping calls, goroutines that never return, fids left locked, race reports), never inferred.",
-    level_note="Trusted: mockfs in-call counters, the settle heuristic of the gate controller (affects which interleavings are explored, never the verdict), the race detector.",
+    level_text="Generated concurrent histories x generated release orders of parked file-system calls; violations are observed (overlapping calls, goroutines that never return, fids left locked or half-bound, results that no sequential order can explain by the count of binds and unbinds per fid, race reports), never inferred.",
+    level_note="Trusted: mockfs in-call counters, the settle heuristic of the gate controller (affects which interleavings are explored, never the verdict), the race detector. Full linearizability of every result is not checked (no model-based history checker was built); the conservation law is a necessary condition only.",
  ),
  "C06": dict(
     technique="property-based testing (rapid) of ServeConn with a scripted Handler (parks every invocation) and a scripted raw client speaking an independent codec; model = multiset of owed replies",
@@ -90,7 +90,7 @@ TEXT = {
     level_note="Trusted: refwire, scripted server, VerifAllocateTag wrapper. Interleavings inside the transport are those the scheduler produces under the controlled reply orders.",
  ),
  "C12": dict(
-    technique="fault-injection property testing (rapid): generated scripts of hostile replies, malformed frames, cancellations and connection failures against the real CSession; process crashes recovered from the case journal; Go race detector",
+    technique="fault-injection property testing (rapid): generated scripts of hostile replies, malformed frames, per-call cancellations and deadlines, late replies to abandoned calls and connection failures (plain and net.Error) against the real CSession; process crashes recovered from the case journal; Go race detector",
     design_ref="DESIGN.md section 4, C12",
     level_text="Generated misbehaviour scripts with 0..n calls pending; liveness is tested as 'returns within 10 s'; crash-freedom by surviving the script (the driver turns a dead child into a replayable violation).",
     level_note="Trusted: memconn fault injection, refwire. Both 'ignore' and 'give up on the session' are accepted reactions to a stray or malformed frame.",
